@@ -34,6 +34,16 @@ func extraGated() []gatedCfg {
 			}
 		}
 	}
+	// every pool option x histories in which callers recover a panic from a rejected Submit and carry on
+	for _, w := range []int{1, 3, 0} {
+		for _, cancel := range []bool{false, true} {
+			for _, po := range []bool{false, true} {
+				for _, v := range []string{"submit-after-shutdown", "double-shutdown", "never-started", "submit-while-draining"} {
+					out = append(out, gatedCfg{Kind: "options", Workers: w, Cancel: cancel, PanicOpt: po, Variant: v, Shutdown: true})
+				}
+			}
+		}
+	}
 	return out
 }
 
@@ -41,6 +51,9 @@ func newPool(cfg gatedCfg) (*workerpool.WorkerPool, *workerpool.Group) {
 	opts := []options.Option[workerpool.WorkerPool]{workerpool.WithCancelPendingTasksOnShutdown(cfg.Cancel)}
 	if cfg.Workers > 0 {
 		opts = append(opts, workerpool.WithWorkerCount(cfg.Workers))
+	}
+	if cfg.PanicOpt {
+		opts = append(opts, workerpool.WithPanicOnSubmitAfterShutdown(true))
 	}
 	if cfg.Group {
 		g := workerpool.NewGroup("root")
@@ -148,6 +161,118 @@ func runExtra(cfg gatedCfg) (res gatedResult) {
 	}
 
 	switch cfg.Kind {
+	case "options":
+		sub := gdump.NewActor("submitter")
+		defer sub.Close()
+		var rejected []*gtask
+		// rejectedSubmit: Submit on a pool that is not running; the caller recovers a panic (option) and carries on
+		rejectedSubmit := func(when string) bool {
+			t := newTask(false)
+			rejected = append(rejected, t)
+			st := do(sub, func() { pool.Submit(body(t)) })
+			p := sub.TakePanic()
+			step("Submit %s -> %s, panic=%q (WithPanicOnSubmitAfterShutdown=%v)", when, stName(st), p, cfg.PanicOpt)
+			if st != gdump.Returned {
+				viol("submit-never-returns", "Submit %s is parked for ever", when)
+				return false
+			}
+			res.RejectedSubmits++
+			if p != "" {
+				res.RecoveredPanics++
+			}
+			return true
+		}
+		shutdown := func(what string) bool {
+			st := do(sh, func() { pool.Shutdown() })
+			step("%s -> %s", what, stName(st))
+			if p := sh.TakePanic(); p != "" {
+				viol("shutdown/panic", "%s panicked: %s", what, p)
+				return false
+			}
+			if st != gdump.Returned {
+				gs := waitQuiescent()
+				cnt, q := cq()
+				viol("shutdown-call-never-returns", "%s is parked for ever at structural quiescence (history: %v; %s, counter=%d queue=%d)", what, res.Steps, patternOf(gs, before), cnt, q)
+				return false
+			}
+			return true
+		}
+		wait := func() bool {
+			if st := do(wt, func() { pool.ShutdownComplete.Wait() }); st != gdump.Returned {
+				gs := waitQuiescent()
+				viol("shutdown-hangs/other", "ShutdownComplete.Wait() never returns (%s)", patternOf(gs, before))
+				return false
+			}
+			return true
+		}
+		// a task that panics and recovers inside its own body must not disturb the pool
+		panicky := func() *gtask {
+			t := newTask(false)
+			pool.Submit(func() {
+				defer func() { recover() }()
+				t.runs.Add(1)
+				panic("task-internal panic, recovered by the task")
+			})
+			return t
+		}
+		switch cfg.Variant {
+		case "never-started":
+			if !shutdown("Shutdown() of a never-started pool") || !rejectedSubmit("on the never-started pool") || !wait() {
+				return
+			}
+		case "submit-after-shutdown", "double-shutdown":
+			pool.Start()
+			waitQuiescent()
+			if !submitOne("Submit on the fresh pool") {
+				return
+			}
+			panicky()
+			if !shutdown("Shutdown()") || !wait() || !rejectedSubmit("after the shutdown completed") {
+				return
+			}
+			if cfg.Variant == "double-shutdown" {
+				if !shutdown("second Shutdown()") || !rejectedSubmit("after the second Shutdown") || !wait() {
+					return
+				}
+			}
+		case "submit-while-draining":
+			pool.Start()
+			waitQuiescent()
+			held := newTask(true)
+			pool.Submit(body(held))
+			waitQuiescent()
+			if !shutdown("Shutdown() with a task held") || !rejectedSubmit("while the shutdown is draining") {
+				return
+			}
+			held.opened = true
+			close(held.gate)
+			if !wait() {
+				return
+			}
+		}
+		// carry on: restart, work, shut down again
+		if st := do(wt, func() { pool.Start() }); st != gdump.Returned {
+			viol("shutdown-then-start/start-never-returns-after-shutdown-complete", "Start() after the history %v is parked for ever", res.Steps)
+			return
+		}
+		for i := 0; i < 3; i++ {
+			if !submitOne("Submit after restart") {
+				return
+			}
+		}
+		pk := panicky()
+		waitQuiescent()
+		if pk.runs.Load() != 1 {
+			viol("accepted-task-not-run-while-running", "a task (that panics and recovers internally) submitted after restart has run %d times", pk.runs.Load())
+			return
+		}
+		for _, t := range rejected {
+			if t.runs.Load() != 0 {
+				viol("rejected-task-ran", "a task whose Submit was rejected (pool not running) has run %d times", t.runs.Load())
+				return
+			}
+		}
+		finish()
 	case "watchers":
 		if grp == nil {
 			pool.Start()
